@@ -70,7 +70,9 @@ def _ob_key(ob):
 
 def run_task(job):
     """Worker: explore one contract/config and solve its obligations in-process."""
-    target, cidx, cfg, timeout_ms, want_smt = job
+    target, cidx, cfg, timeout_ms, want_smt = job[:5]
+    worklist = job[5] if len(job) > 5 else None
+    slice_s = job[6] if len(job) > 6 else None
     modname, clsname = target, str(cidx)
     sys.path.insert(0, VERIF) if VERIF not in sys.path else None
     from . import solve, verify
@@ -95,7 +97,8 @@ def run_task(job):
 
         cc = C.REGISTRY[target][cidx]
         out["task"] = f"{cc.__module__}.{cc.__name__}"
-        res = verify.run_contract(cc, cfg, budget_s=getattr(cc, "budget_s", 900), name=cc.meta.get("name"))
+        res = verify.run_contract(cc, cfg, budget_s=getattr(cc, "budget_s", 900), name=cc.meta.get("name"), worklist=worklist, slice_s=slice_s)
+        out["leftover"] = res.leftover
         out["name"] = res.name
         out["target"] = res.target
         out["source_hash"] = res.source_hash
@@ -115,7 +118,7 @@ def run_task(job):
                 continue
             seen[k] = True
             uniq.append(ob)
-        results = solve.solve_all(uniq, timeout_ms=timeout_ms, workers=1)
+        results = solve.solve_all(uniq, timeout_ms=timeout_ms, workers=1, crosscheck=timeout_ms > 60000)
         for ob, r in zip(uniq, results):
             rec = {
                 "name": ob.name,
@@ -123,6 +126,7 @@ def run_task(job):
                 "result": r["result"],
                 "backend": r["backend"],
                 "time": round(r["time"], 4),
+                "crosscheck": r.get("crosscheck"),
                 "reason": r.get("reason", ""),
                 "site": ob.site,
                 "meta": ob.meta,
@@ -191,12 +195,46 @@ def run_property(prop, tier="quick", workers=None, extra=None):
     results = []
     if not tasks:
         return finish(prop, tier, seed, [], t0, error="no contracts registered for this property")
-    jobs = [(m, c, cfg, timeout_ms, False) for (m, c, cfg) in tasks]
-    if len(jobs) == 1:
-        results = [run_task(jobs[0])]
+    slice_s = float(os.environ.get("PYVC_SLICE_S", "25"))
+    jobs = [(m, c, cfg, timeout_ms, False, None, slice_s) for (m, c, cfg) in tasks]
+    if len(jobs) == 1 and workers == 1:
+        results = [run_task(jobs[0][:5])]
     else:
-        with cf.ProcessPoolExecutor(max_workers=min(workers, len(jobs))) as ex:
-            results = list(ex.map(run_task, jobs))
+        # Work stealing by re-submission: a worker explores its subtree for one time slice and hands the
+        # unexplored decision prefixes back; they are re-queued (split in two) so that all cores stay busy.
+        merged = {}
+        with cf.ProcessPoolExecutor(max_workers=workers) as ex:
+            pending = {ex.submit(run_task, j): j for j in jobs}
+            while pending:
+                done, _ = cf.wait(list(pending), return_when=cf.FIRST_COMPLETED)
+                for f in done:
+                    j = pending.pop(f)
+                    try:
+                        r = f.result()
+                    except Exception as e:  # pylint: disable=broad-except
+                        r = {"task": str(j[0]), "config": j[2], "obligations": [], "undecided": [], "errors": [[str(j[0]), f"worker failed: {e}"]], "paths": 0}
+                    left = r.pop("leftover", None) or []
+                    if left:
+                        half = max(1, len(left) // 2)
+                        for chunk in (left[:half], left[half:]):
+                            if chunk:
+                                nj = j[:5] + (chunk, slice_s)
+                                pending[ex.submit(run_task, nj)] = nj
+                    key = (j[0], j[1], json.dumps(j[2], sort_keys=True))
+                    if key not in merged:
+                        merged[key] = r
+                    else:
+                        m_ = merged[key]
+                        seen_names = {(o["name"], o.get("nhyps"), str(o.get("trace"))) for o in m_["obligations"]}
+                        m_["obligations"].extend(r["obligations"])
+                        m_["undecided"].extend(r["undecided"])
+                        m_["errors"].extend(r["errors"])
+                        for k2 in ("paths", "dead", "reached_post", "unknown_branches"):
+                            m_[k2] = (m_.get(k2) or 0) + (r.get(k2) or 0)
+                        m_["solver_time"] = m_.get("solver_time", 0.0) + r.get("solver_time", 0.0)
+                        m_["inlined"] = sorted(set(m_.get("inlined", [])) | set(r.get("inlined", [])))
+                        m_["wall"] = m_.get("wall", 0.0) + r.get("wall", 0.0)
+        results = list(merged.values())
     fin = run_finite(prop)
     extra = dict(extra or {})
     audit_errors = []
@@ -289,6 +327,9 @@ def finish(prop, tier, seed, results, t0, error=None, extra=None, finite=None):
             if o["result"] == "unsat":
                 n_dis += 1
                 by_backend[o["backend"]] = by_backend.get(o["backend"], 0) + 1
+                if o.get("crosscheck"):
+                    k_ = "cvc5-crosscheck-" + o["crosscheck"]
+                    by_backend[k_] = by_backend.get(k_, 0) + 1
                 if len(samples) < 6 and o["backend"] != "simplifier":
                     samples.append({"obligation": o["name"], "kind": o["kind"], "backend": o["backend"], "time_s": o["time"], "hypotheses": o["nhyps"], "path_tail": o["trace"][-4:]})
             elif o["result"] == "sat":
@@ -296,7 +337,10 @@ def finish(prop, tier, seed, results, t0, error=None, extra=None, finite=None):
             else:
                 undecided.append([o["name"], f"solver: {o['reason']}"])
     # vacuity: every task must have a reachable precondition; a task with ensures must reach it
+    framed = {tname for tname, o in violations if o["kind"] == "frame"}
     for grp, ok in vac.items():
+        if ok is False and any(grp.startswith(t) for t in framed):
+            continue  # every path of the task ended at a failed frame obligation (reported below)
         if ok is False:
             errors.append([grp, "vacuous: no path satisfies the precondition / reaches the postcondition"])
     if not results and not error:
@@ -314,15 +358,37 @@ def finish(prop, tier, seed, results, t0, error=None, extra=None, finite=None):
         lines.append(f"KNOWN-FINDING: property={prop} {kf['what']}")
     replay_paths = []
     seen_names = set()
+    frame_groups = {}  # written global -> [reproduced?, replay path, members tried]
     for tname, o in violations:
         if o["name"] in seen_names:
             continue  # one line per named obligation; further counter-models are other paths of the same clause
         seen_names.add(o["name"])
+        if o["kind"] == "frame":
+            # a broken frame is a broken proof, not a broken property: the per-call contract no longer implies
+            # the every-history statement.  One report per written global; a violation only with a history
+            # that fails natively (searched for on the first few obligations of the group).
+            g = (o.get("meta") or {}).get("global")
+            st = frame_groups.setdefault(g, [False, None, 0, o["name"]])
+            if st[0] or st[2] >= 2:
+                continue
+            st[2] += 1
+            path, reproduced = RP.write_replay(prop, tname, o)
+            st[1] = st[1] or path
+            if reproduced:
+                st[0], st[1], st[3] = True, path, o["name"]
+            continue
         path, reproduced = RP.write_replay(prop, tname, o)
         replay_paths.append(path)
         suffix = "" if reproduced else " no-failing-input-found"
         lines.append(f"VIOLATION property={prop} replay={path} obligation={o['name']}{suffix}")
         code = EXIT_VIOLATION
+    for g, (reproduced, path, _n, oname) in frame_groups.items():
+        if reproduced:
+            replay_paths.append(path)
+            lines.append(f"VIOLATION property={prop} replay={path} obligation={oname}")
+            code = EXIT_VIOLATION
+        else:
+            undecided.append([oname, f"writes module-level state {g}: independence from earlier calls does not follow from the per-call contract, and the native search found no history-dependent input (see {path})"])
     for n, ok, w in finite or []:
         if not ok:
             rec = {"name": f"{prop}.finite.{n}", "kind": "finite", "backend": "exhaustive-evaluation", "result": "sat", "time": 0.0, "meta": {"witness": w}, "model": {"witness": w}, "goal": n}
@@ -377,8 +443,9 @@ def finish(prop, tier, seed, results, t0, error=None, extra=None, finite=None):
     }
     if extra:
         ev["coverage"].update(extra)
-    os.makedirs(os.path.join(VERIF, "evidence"), exist_ok=True)
-    with open(os.path.join(VERIF, "evidence", f"{prop}.json"), "w", encoding="utf-8") as fh:
+    evdir = os.environ.get("VERIF_EVIDENCE_DIR") or os.path.join(VERIF, "evidence")
+    os.makedirs(evdir, exist_ok=True)
+    with open(os.path.join(evdir, f"{prop}.json"), "w", encoding="utf-8") as fh:
         json.dump(ev, fh, indent=1, default=str)
     lines.append(
         f"SUMMARY property={prop} tier={tier} obligations={n_obl} discharged={n_dis} violations={len(violations)} "
